@@ -74,6 +74,16 @@ var c11Pins = []c11Pin{
 	{Name: "struct-default-overrides-constant-member", Formats: []string{"cue"},
 		Sexp: `(defs "Root" ("Root" (struct (field "name" (string - - false) true false -) (field "value" (ref "Child") false false (o ("items" (n "7.75")) ("opts" (n "-70")))))) ("Child" (struct (field "items" (num 64 - -) true false -) (field "opts" (int 8 true -70 -70) true false -))))`,
 		Docs: []string{`{"name":"x"}`, `{"name":"x","value":{"items":1,"opts":-70}}`}},
+	{Name: "three-level-dict-of-structs",
+		Sexp: `(defs "Root" ("Root" (struct (field "name" (string - - false) true false -) (field "cube" (dict (dict (dict (ref "Node")))) false false -) (field "items" (array (ref "Node")) false false -))) ("Node" (struct (field "v" (int 64 true - -) false false -))))`,
+		Docs: []string{`{"name":"x","cube":{"a":{"b":{"c":{"v":1},"d":{"v":2}},"e":{"f":{"v":3},"c":{"v":5}}},"g":{"h":{"i":{"v":4}},"b":{"c":{"v":6}}}}}`, `{"name":"x","cube":{"a":{"a":{"a":{"v":1}}}}}`, `{"name":"x","cube":{}}`}},
+	{Name: "string-patterns-with-metacharacters", Formats: []string{"jsonschema", "openapi"},
+		Sexp: `(defs "Root" ("Root" (struct (field "name" (string - - false) true false -) (field "mode" (string - - false) true false -) (field "alt" (string - - false) true false -) (field "dot" (string - - false) false false -) (field "plus" (string - - false) false false -) (field "cls" (string - - false) false false -))))`,
+		Text: map[string]string{
+			"jsonschema": `{"$schema":"http://json-schema.org/draft-07/schema#","$ref":"#/definitions/Root","definitions":{"Root":` + c11PatternRoot + `}}`,
+			"openapi":    `{"openapi":"3.0.0","info":{"title":"Root","version":"0.0"},"paths":{},"components":{"schemas":{"Root":` + c11PatternRoot + `}}}`,
+		},
+		Docs: []string{`{"name":"x","mode":"instant","alt":"ac"}`, `{"name":"x","mode":"range","alt":"bc","dot":"xyz","plus":"abbb","cls":"qx"}`, `{"name":"y","mode":"instant","alt":"bc","dot":"x.z","plus":"ab","cls":"ax"}`}},
 	{Name: "enum-and-nested",
 		Sexp: `(defs "Root" ("Root" (struct (field "e" (ref "Color") true false -) (field "inl" (enumS "p" "q") false false -) (field "list" (array (ref "Node")) true false -) (field "byKey" (dict (ref "Node")) false false -))) ("Color" (enumS "red" "green")) ("Node" (struct (field "v" (int 64 true - -) false false -) (field "next" (ref "Node") false false -))))`,
 		Docs: []string{`{"e":"green","inl":"q","list":[{"v":1,"next":{"v":2}},{}],"byKey":{"k":{"v":3}}}`, `{"e":"red","list":[]}`}},
@@ -87,6 +97,12 @@ func c11Short(v JV) string {
 	}
 	return string(r)
 }
+
+// string members declared with anchored patterns that are NOT constants (alternation, `.`, `+`, a
+// class, a group): the front-ends must keep them as strings (only `^literal$` is read as a constant)
+const c11PatternRoot = `{"type":"object","additionalProperties":false,"required":["name","mode","alt"],"properties":{` +
+	`"name":{"type":"string"},"mode":{"type":"string","pattern":"^instant|range$"},"alt":{"type":"string","pattern":"^(a|b)c$"},` +
+	`"dot":{"type":"string","pattern":"^x.z$"},"plus":{"type":"string","pattern":"^ab+$"},"cls":{"type":"string","pattern":"^[a-z]x$"}}}`
 
 var c11ExcRe = regexp.MustCompile(`^err ([A-Za-z_.]+)`)
 
@@ -478,7 +494,12 @@ func init() {
 					if only, ok := args["format"]; ok && only != f {
 						continue
 					}
-					c := lab.AddCase(d, f)
+					var c *LabCase
+					if txt := p.Text[f]; txt != "" {
+						c = lab.AddCaseText(f, txt, d) // hand-written schema text; d is its semantic reading
+					} else {
+						c = lab.AddCase(d, f)
+					}
 					cases = append(cases, c)
 					pinOf[c.ID] = p.Name
 					for _, dt := range p.Docs {
